@@ -204,6 +204,21 @@ impl PartialEq for ItemExpiration {
 
 impl Eq for ItemExpiration {}
 
+// Verification hook: raw content of the announce storage.
+#[cfg(btdht_verif)]
+impl AnnounceStorage {
+    pub(crate) fn verif_queue(&self) -> Vec<(InfoHash, SocketAddr, Instant)> {
+        self.expires
+            .iter()
+            .map(|e| (e.info_hash, e.address, e.inserted))
+            .collect()
+    }
+
+    pub(crate) fn verif_indexed(&self) -> usize {
+        self.storage.values().map(|items| items.len()).sum()
+    }
+}
+
 #[cfg(test)]
 mod tests {
     use crate::time::Instant;
